@@ -52,17 +52,17 @@ Proof.
 Qed.
 
 (* ---------- the hull of a chunk and the token hash's subtractions ---------- *)
-Lemma list_min_le x l : list_min x l <= x /\ (forall y, In y l -> list_min x l <= y).
+Lemma pts_min_le x l : pts_min x l <= x /\ (forall y, In y l -> pts_min x l <= y).
 Proof.
-  revert x. induction l as [|z l IH]; intros x; cbn [list_min].
+  revert x. induction l as [|z l IH]; intros x; cbn [pts_min].
   - split; [lia|intros y []].
   - destruct (IH (Nat.min x z)) as [H1 H2]. split; [lia|].
     intros y [<-|Hy]; [lia|now apply H2].
 Qed.
 
-Lemma list_max_ge x l : x <= list_max x l /\ (forall y, In y l -> y <= list_max x l).
+Lemma pts_max_ge x l : x <= pts_max x l /\ (forall y, In y l -> y <= pts_max x l).
 Proof.
-  revert x. induction l as [|z l IH]; intros x; cbn [list_max].
+  revert x. induction l as [|z l IH]; intros x; cbn [pts_max].
   - split; [lia|intros y []].
   - destruct (IH (Nat.max x z)) as [H1 H2]. split; [lia|].
     intros y [<-|Hy]; [lia|now apply H2].
@@ -90,8 +90,8 @@ Section TokenFacts.
     unfold hull_of. destruct (flat_map tok_points ts) as [|x [|y r]]; [now eexists| |].
     - unfold span_new. rewrite Nat.ltb_irrefl. cbn [bind]. now eexists.
     - unfold span_new.
-      destruct (list_min_le x (y :: r)) as [H1 _]. destruct (list_max_ge x (y :: r)) as [H2 _].
-      replace (list_max x (y :: r) <? list_min x (y :: r)) with false by (symmetry; apply Nat.ltb_ge; lia).
+      destruct (pts_min_le x (y :: r)) as [H1 _]. destruct (pts_max_ge x (y :: r)) as [H2 _].
+      replace (pts_max x (y :: r) <? pts_min x (y :: r)) with false by (symmetry; apply Nat.ltb_ge; lia).
       cbn [bind]. now eexists.
   Qed.
 
@@ -104,8 +104,8 @@ Section TokenFacts.
     { destruct (flat_map tok_points ts) as [|x [|y r]]; [discriminate| |].
       - unfold span_new in H. rewrite Nat.ltb_irrefl in H. cbn [bind] in H. injection H as <-.
         intros p [<-|[]]. cbn [sstart]. lia.
-      - unfold span_new in H. destruct (list_max x (y :: r) <? list_min x (y :: r)); cbn [bind] in H; [discriminate|].
-        injection H as <-. cbn [sstart]. destruct (list_min_le x (y :: r)) as [H1 H2].
+      - unfold span_new in H. destruct (pts_max x (y :: r) <? pts_min x (y :: r)); cbn [bind] in H; [discriminate|].
+        injection H as <-. cbn [sstart]. destruct (pts_min_le x (y :: r)) as [H1 H2].
         intros p [<-|Hp]; [assumption|now apply H2]. }
     apply Forall_forall. intros t Ht. split; apply Hp; apply in_flat_map; exists t; (split; [assumption|]); cbn [tok_points In]; auto.
   Qed.
@@ -589,3 +589,16 @@ Definition ex_outs {K} (r : res (state N K * list (list clint))) : list (list (n
   | Ok (_, outs) => map (map (fun l => (sstart (cl_span l), send (cl_span l), cl_body l))) outs
   | Panic _ => []
   end.
+Lemma ex_doc_wf t : doc_wf (ex_doc t).
+Proof.
+  unfold ex_doc.
+  destruct (doc_of ex_src [ex_toks 0 t; []; ex_toks 10 t] [(mkspan 4 6, [120; 120]%N); (mkspan 14 16, [120; 120]%N)] 5) as [d|] eqn:E.
+  - eapply doc_of_wf. exact E.
+  - intros ch [].
+Qed.
+
+(* the history of the non-vacuity example C05_refinement_nonvacuous *)
+Definition ex_hist : list (op N N (text * N * N)) :=
+  [SetCfg 1%N; Lint (ex_doc 0) [] []; Lint (ex_doc 1) [] []; SetCfg 0%N; Lint (ex_doc 0) [] [];
+   Evict (fun k => negb (N.eqb (snd (fst k)) 0)) (fun _ => false); SetCfg 1%N;
+   Lint (ex_doc 0) [fun _ => true; fun _ => true; fun _ => false] []].
